@@ -366,6 +366,9 @@ impl Cast<i64> for TimeDelta {
 impl Cast<Option<i64>> for TimeDelta {
     #[inline]
     fn cast(self) -> Option<i64> {
+        if self.is_none() {
+            return None;
+        }
         let months = self.months;
         if months != 0 {
             panic!("not support cast TimeDelta to i64 when months is not zero")
